@@ -166,6 +166,7 @@ func (m *machine) numBuiltin(name string, args []Value, rt *wgen.Type) Value {
 		for _, f := range flat {
 			s += float64(f.F32()) * float64(f.F32())
 		}
+		m.sqSumRange(s)
 		v := m.fres(math.Sqrt(s), true)
 		v.T = rt
 		return v
@@ -178,6 +179,7 @@ func (m *machine) numBuiltin(name string, args []Value, rt *wgen.Type) Value {
 			d := float64(fa[i].F32()) - float64(fb[i].F32())
 			s += d * d
 		}
+		m.sqSumRange(s)
 		v := m.fres(math.Sqrt(s), true)
 		v.T = rt
 		return v
@@ -189,6 +191,7 @@ func (m *machine) numBuiltin(name string, args []Value, rt *wgen.Type) Value {
 		if s == 0 {
 			m.ev.UndefBuiltin++
 		}
+		m.sqSumRange(s)
 		l := math.Sqrt(s)
 		out := Value{T: rt, E: make([]Value, len(a0.E))}
 		for i, f := range a0.E {
@@ -476,6 +479,8 @@ func (m *machine) floatBuiltin(name string, a []Value) Value {
 		return m.fres(math.Cosh(x), true)
 	case "tanh":
 		return m.fres(math.Tanh(x), true)
+	case "asinh":
+		return m.fres(math.Asinh(x), true)
 	case "degrees":
 		return m.fres(x*180/math.Pi, true)
 	case "radians":
@@ -578,4 +583,13 @@ func (m *machine) unpack(name string, v Value, rt *wgen.Type) Value {
 		out.E[i].T = rt.ScalarOf()
 	}
 	return out
+}
+
+// sqSumRange: length / distance / normalize inherit their accuracy from
+// sqrt(dot(e, e)); when the sum of squares leaves the binary32 normal range an
+// implementation may return infinity / zero, so the result is not determined.
+func (m *machine) sqSumRange(s float64) {
+	if s > math.MaxFloat32 || (s != 0 && s < 0x1p-126) {
+		m.ev.NonFinite++
+	}
 }
